@@ -216,3 +216,106 @@ func (s *Stmt) Count() int {
 	}
 	return n
 }
+
+// all returns every statement of the tree with its parent (root has nil parent).
+func (s *Stmt) all() (out []struct{ n, p *Stmt }) {
+	var walk func(n, p *Stmt)
+	walk = func(n, p *Stmt) {
+		out = append(out, struct{ n, p *Stmt }{n, p})
+		for _, k := range n.Kids {
+			walk(k, n)
+		}
+	}
+	walk(s, nil)
+	return
+}
+
+var someKeywords = []string{"leaf", "container", "list", "type", "key", "belongs-to", "import", "include", "prefix", "namespace", "default", "mandatory", "config", "uses", "grouping", "typedef", "choice", "case", "augment", "must", "when", "range", "length", "pattern", "enum", "revision", "feature", "if-feature", "identity", "base", "unique", "min-elements", "max-elements", "ordered-by", "status", "description", "presence", "units", "value", "bit", "position", "path", "require-instance", "fraction-digits", "deviation", "deviate", "rpc", "input", "output", "notification", "refine", "extension", "argument", "yin-element", "yang-version", "organization", "contact", "reference", "revision-date", "submodule", "module", "anyxml", "leaf-list", "error-message", "error-app-tag", "ex:ext"}
+
+// DamageStructure applies one statement-level operator to a clone of the tree:
+// drop / duplicate / move a whole statement, swap two siblings, change a
+// keyword, clear or garble an argument. The text stays lexically and
+// syntactically well-formed; cardinality, ordering and argument rules break.
+func (s *Stmt) DamageStructure(t *tape.Tape) (*Stmt, string) {
+	c := s.Clone()
+	nodes := c.all()
+	if len(nodes) < 2 {
+		return c, "none"
+	}
+	pick := func() struct{ n, p *Stmt } { return nodes[1+t.Draw(len(nodes)-1)] }
+	remove := func(x struct{ n, p *Stmt }) {
+		for i, k := range x.p.Kids {
+			if k == x.n {
+				x.p.Kids = append(x.p.Kids[:i:i], x.p.Kids[i+1:]...)
+				return
+			}
+		}
+	}
+	// statements whose absence code tends to take for granted
+	mandatory := map[string]bool{"belongs-to": true, "namespace": true, "prefix": true, "type": true, "key": true, "path": true, "base": true, "fraction-digits": true, "value": true, "position": true, "input": true, "output": true, "deviate": true, "revision-date": true}
+	switch t.Draw(7) {
+	case 0:
+		x := pick()
+		if t.Draw(5) >= 2 {
+			var m []struct{ n, p *Stmt }
+			for _, y := range nodes[1:] {
+				if mandatory[y.n.Kw] {
+					m = append(m, y)
+				}
+			}
+			// header statements of the (sub)module first: they are few and decide how everything else is read
+			var top []struct{ n, p *Stmt }
+			for _, y := range m {
+				if y.p == c {
+					top = append(top, y)
+				}
+			}
+			if len(top) > 0 && t.Coin() {
+				x = top[t.Draw(len(top))]
+			} else if len(m) > 0 {
+				x = m[t.Draw(len(m))]
+			}
+		}
+		remove(x)
+		return c, "stmt-drop:" + x.n.Kw
+	case 1:
+		x := pick()
+		x.p.Kids = append(x.p.Kids, x.n.Clone())
+		return c, "stmt-dup:" + x.n.Kw
+	case 2:
+		x := pick()
+		dst := nodes[t.Draw(len(nodes))].n
+		inside := false
+		for _, d := range x.n.all() {
+			if d.n == dst {
+				inside = true
+			}
+		}
+		if inside {
+			return c, "none"
+		}
+		remove(x)
+		dst.Kids = append(dst.Kids, x.n)
+		return c, "stmt-move:" + x.n.Kw + "->" + dst.Kw
+	case 3:
+		x := pick()
+		if len(x.p.Kids) >= 2 {
+			i, j := t.Draw(len(x.p.Kids)), t.Draw(len(x.p.Kids))
+			x.p.Kids[i], x.p.Kids[j] = x.p.Kids[j], x.p.Kids[i]
+		}
+		return c, "stmt-swap"
+	case 4:
+		x := nodes[t.Draw(len(nodes))]
+		old := x.n.Kw
+		x.n.Kw = someKeywords[t.Draw(len(someKeywords))]
+		return c, "keyword:" + old + "->" + x.n.Kw
+	case 5:
+		x := nodes[t.Draw(len(nodes))]
+		x.n.NoArg = !x.n.NoArg
+		return c, "arg-toggle:" + x.n.Kw
+	default:
+		x := nodes[t.Draw(len(nodes))]
+		x.n.Arg = []string{"", " ", "1..", "..", "a b", "a  b", "|", "1|", "/", "/a/", "a:", ":a", "2020-13-45", "202-01-01", "-", "0x10", "min..max|", "é", "a\"b", "current()", "../", "[", "true ", "1e3", "9999999999999999999999", "*", "a/b/", "p:"}[t.Draw(28)]
+		return c, "arg-garble:" + x.n.Kw
+	}
+}
